@@ -299,7 +299,9 @@ func HarnessPauseRace() {
 	if vChoose("initially_paused", 2) == 1 {
 		vAssert(router.PauseService("svc", 0, maxPause) == nil, "pause race: initial pause accepted")
 	}
-	command := func(which int) {
+	vProbeScripts["new0:80"] = vHealthyScript()
+	vProbeScripts["new1:80"] = vHealthyScript()
+	command := func(which int, tag string) {
 		switch which {
 		case 0:
 			router.PauseService("svc", 0, maxPause)
@@ -307,15 +309,33 @@ func HarnessPauseRace() {
 			router.ResumeService("svc")
 		case 2:
 			router.StopService("svc", 0, "halt")
+		case 3:
+			// a redeploy does not touch the gate: whatever the other command did must survive it
+			router.DeployService("svc", []string{"new" + tag + ":80"}, ServiceOptions{Hosts: []string{"h"}}, topts, 1000, 0)
 		}
 	}
-	c1 := vChoose("command1", 3)
-	c2 := vChoose("command2", 3)
+	initial := svc.pauseController.GetState()
+	target := func(which int, from PauseState) PauseState {
+		switch which {
+		case 0:
+			return PauseStatePaused
+		case 1:
+			return PauseStateRunning
+		case 2:
+			return PauseStateStopped
+		}
+		return from
+	}
+	ncmds := vParam("commands", 4)
+	c1 := vChoose("command1", ncmds)
+	c2 := vChoose("command2", ncmds)
 	done := 0
-	go func() { command(c1); done++ }()
-	go func() { command(c2); done++ }()
+	go func() { command(c1, "0"); done++ }()
+	go func() { command(c2, "1"); done++ }()
 	vBlockUntil(func() bool { return done == 2 })
-	final := svc.pauseController.GetState()
+	final := router.serviceForName("svc").pauseController.GetState()
+	// the two commands take effect in one of the two orders
+	vAssert(final == target(c2, target(c1, initial)) || final == target(c1, target(c2, initial)), "pause race: the gate ends in the state left by one of the two orders of the commands")
 	vEmit(vEvent{kind: "cmd_return"})
 	at := vNow()
 	vProxyPlans[0] = &vProxyPlan{service: 0}
